@@ -160,7 +160,9 @@ example : ReenterInv (reenterOf prog1 5) := reenterOf_inv prog1 5
 **false**; what is proved instead:
 
 * `schedule_independence_Full_false` — a kernel-checked counter-example (ill-formed bytecode that
-  pops below its own frame and then moves the stack pointer back up with `ClearStack`);
+  drops a captured slot with `AppendTable` — `pop_n` keeps the slot — and then reads the stale slot
+  through the still open upvalue; the former witness, which moved the stack pointer back up with
+  `ClearStack`, is gone with the repair of `clear_until`: `clearStack_witness_repaired`);
 * `alloc_outcome_schedule_independent`, `initTable_schedule_independent`, … — the allocation layer
   at full strength (same address / same `OutOfMemory` outcome, related states);
 * `schedule_independence_of_stepSim` — whole runs are schedule independent as soon as every
@@ -169,20 +171,40 @@ example : ReenterInv (reenterOf prog1 5) := reenterOf_inv prog1 5
   `simpleOps` (tables are created, shared, dropped, collected; allocations may fail).
 -/
 
-/-- `X = {}; T = {}; 7; f = fn@22/0; f()` where `f` is `T[7] = X` (pops three values, the slots
-    keep them) `; {} ; pop ; ClearStack ; pop ; len`: inside `f` the frame starts at slot 3 but only
-    0 values are left, so `ClearStack` moves the stack pointer *up* to 3 and resurrects the stale
-    reference to `T` in slot 1, which a collection forced by the allocation in between has freed
-    (`len` sees 0 entries) or not (1 entry) -/
-def staleProg : Prog :=
+/-- the witness used before the repair of `clear_until`: `X = {}; T = {}; 7; f = fn@22/0; f()`
+    where `f` is `T[7] = X` (pops three values, the slots keep them) `; {} ; pop ; ClearStack ; pop ;
+    len`: inside `f` the frame starts at slot 3 but only 0 values are left, so the old `ClearStack`
+    moved the stack pointer *up* to 3 and resurrected the stale reference to `T` in slot 1, which a
+    collection forced by the allocation in between had freed (`len` saw 0 entries) or not (1 entry) -/
+def clearStackProg : Prog :=
   { bytecode := #[31, 31, 5, 7,0,0,0,0,0,0,0, 37, 9,0,0,0, 0,0,0,0, 11, 10,
                   33, 31, 16, 21, 16, 34, 10],
     data := #[], labels := [(9, 22)], varNames := [], trace := [] }
 
 def staleCfg : Config := { memLimit := 100000, stackSize := 8, callStackSize := 8, maxInstr := 100 }
 
-example : (run staleProg 100 { VmState.fresh staleCfg with sched := .every }).1.stack.contents = [.nil, .int 0] ∧
-    (run staleProg 100 { VmState.fresh staleCfg with sched := .none }).1.stack.contents = [.nil, .int 1] := by
+/-- with the repaired `clear_until` (`ClearStack` only truncates) that program does not see the
+    stale slot any more: the same result under both schedules (`len` of `nil`) -/
+theorem clearStack_witness_repaired :
+    (run clearStackProg 100 { VmState.fresh staleCfg with sched := .every }).1.stack.contents =
+    (run clearStackProg 100 { VmState.fresh staleCfg with sched := .none }).1.stack.contents ∧
+    (run clearStackProg 100 { VmState.fresh staleCfg with sched := .none }).1.stack.contents = [.int 0] := by
+  decide +kernel
+
+/-- `7; T = {}; c = closure@36/0; dup; RegisterUpvalue 1 local` (the closure captures slot 1, which
+    holds `T`) `; G0 = c; T.append(7)` (`AppendTable` pops two values with `pop_n`: the slots keep
+    them, slot 1 is now above the height and still captured) `; G0()` where the closure is
+    `{} ; pop ; ReadUpvalue 0 ; len`: the open upvalue reads the stale slot 1 and brings back the
+    reference to `T`, which the collection forced by the allocation in between has freed (`len`
+    sees 0 entries) or not (1 entry) -/
+def staleProg : Prog :=
+  { bytecode := #[5, 7,0,0,0,0,0,0,0, 31, 42, 9,0,0,0, 0,0,0,0, 9, 45, 1, 1, 17, 0,0,0,0, 40,
+                  18, 0,0,0,0, 11, 10,
+                  31, 16, 44, 0,0,0,0, 34, 10],
+    data := #[], labels := [(9, 36)], varNames := [], trace := [] }
+
+example : (run staleProg 100 { VmState.fresh staleCfg with sched := .every }).1.stack.contents = [.int 0] ∧
+    (run staleProg 100 { VmState.fresh staleCfg with sched := .none }).1.stack.contents = [.int 1] := by
   decide +kernel
 
 /-- **the statement at the end of `Props/C02.lean` does not hold for arbitrary bytecode** -/
@@ -281,8 +303,9 @@ def NoIterNatives (p : Prog) (s : VmState) : Prop :=
 
 /-- at every instruction boundary of the run (the prefixes of the run by fuel, under any
     schedule), no call frame starts above the stack height and no open upvalue points above it —
-    so `ClearStack` / `Return` never move the stack pointer upwards over stale slots and upvalues
-    never read stale slots (true for compiler output; `staleProg` violates it) -/
+    so upvalues never read stale slots (true for compiler output; `staleProg` violates the second
+    part).  The first part was needed for the old `clear_until`, with which `ClearStack` / `Return`
+    moved the stack pointer upwards over stale slots; it is kept (it is harmless). -/
 def StackSafeRun (p : Prog) (n : Nat) (s : VmState) : Prop :=
   ∀ (sch : Sched) (gas : Nat),
     let s' := (exec p gas (.loop 0) (started n { s with sched := sch })).1
